@@ -4,21 +4,21 @@
 
 package tensor
 
-//@ define confOK(conf) := conf == nil || conf.Device == CPU
+//@ define confOK(conf) := conf == nil || conf.Device == tensor.CPU
 //@ define confTrack(conf) := conf != nil && conf.GradTrack
 
 //@ func validateConfig
 //@   ensures[C09] iff(err == nil, confOK(conf))
 
 //@ func prepareConfig
-//@   ensures[C09] iff(err == nil, confOK(conf)) && imp(err == nil, c.Device == CPU && c.GradTrack == confTrack(conf))
+//@   ensures[C09] iff(err == nil, confOK(conf)) && imp(err == nil, c.Device == tensor.CPU && c.GradTrack == confTrack(conf))
 
 //@ func validateTensorDevice
 //@   ensures[C09] iff(err == nil, t != nil)
 
 //@ func validateTensorsDeviceUnity
 //@   ensures[C09] iff(err == nil, len(ts) >= 2 && forall(k, 0, len(ts), ts[k] != nil))
-//@   loop 0 invariant len(ts) >= 2 && forall(k, 0, _i0, ts[k] != nil) && (dev == 0 || dev == CPU)
+//@   loop 0 invariant len(ts) >= 2 && forall(k, 0, _i0, ts[k] != nil) && (dev == 0 || dev == tensor.CPU)
 
 //@ func Full
 //@   public
@@ -48,13 +48,13 @@ package tensor
 //@   public
 //@   returns fresh
 //@   ensures[C09,C18] iff(err == nil, confOK(conf) && l < u && dimsOK(dims)) && imp(err != nil, t == nil)
-//@   ensures[C18] imp(err == nil, t != nil && hasShape(t, dims) && forallJ(J, imp(inb(t, J), l <= el(t, J) && el(t, J) < u)) && leafCtx(t, confTrack(conf)))
+//@   ensures[C18] imp(err == nil, t != nil && hasShape(t, dims) && forallJ(J, imp(inb(t, J), l <= el(t, J) && el(t, J) < u)) && drawnU(t, l, u) && leafCtx(t, confTrack(conf)))
 
 //@ func RandN
 //@   public
 //@   returns fresh
 //@   ensures[C09,C18] iff(err == nil, confOK(conf) && s > 0 && dimsOK(dims)) && imp(err != nil, t == nil)
-//@   ensures[C18] imp(err == nil, t != nil && hasShape(t, dims) && leafCtx(t, confTrack(conf)))
+//@   ensures[C18] imp(err == nil, t != nil && hasShape(t, dims) && drawnN(t, u, s) && leafCtx(t, confTrack(conf)))
 
 // every tensor handed to the public API was produced by it (representation invariants of section 3.4)
 //@ define libTensors(ts) := forall(k, 0, len(ts), imp(ts[k] != nil, tinv(ts[k]) && preexisting(ts[k])))
